@@ -284,16 +284,46 @@ def d3_utf16(rep, f, c):
         rep.ob('C16-D3', fn + ':Latin1', exhausted and bi not in after_nonlatin,
                'Latin1 can be returned after a non-Latin1 unit was seen, or before the input is exhausted',
                sp_str(b.blocks[bi]['tsp']), None, c)
+    def any_of_unit_test(e):
+        """e = it.any(|x| unit_test(x)): true = some remaining element tests positive, false = the rest was walked to its end"""
+        if not (e[0] == 'call' and (e[1] or '').endswith('::any') and len(e[2]) == 2):
+            return False
+        cl = e[2][1]
+        if not (cl[0] == 'agg' and cl[1] == 'closure' and len(cl) == 4):
+            return False
+        cb = f.body(cl[3])
+        if cb is None or len(cb.defs.get(0, [])) != 1 or cb.defs[0][0][2] != 'call':
+            return False
+        return cb.callee(cb.defs[0][0][3]) in UNIT_TESTS
     for bi, l in rv.get('LeftToRight', []):
         conds = block_conditions(b, bi, r)
-        exhausted = any(k == 'variant' and v == 'None' and e[0] == 'call' and e[1].endswith('::next') for k, e, v, S in conds)
+        exhausted = any(k == 'variant' and v == 'None' and e[0] == 'call' and e[1].endswith('::next') for k, e, v, S in conds) or \
+            any(k == 'bool' and v is False and any_of_unit_test(e) for k, e, v, S in conds)
         dominated = any(t in b.dom[bi] for t in nonlatin_targets)
         rep.ob('C16-D3', fn + ':LeftToRight@bb', exhausted and dominated,
                'LeftToRight must be returned only after a non-Latin1 unit and at the end of input',
                sp_str(b.blocks[bi]['tsp']), None, c)
     for bi, l in rv.get('Bidi', []):
         conds = block_conditions(b, bi, r)
-        ok = any(k == 'bool' and v is True and e[0] == 'call' and e[1] in UNIT_TESTS for k, e, v, S in conds)
+        ok = any(k == 'bool' and v is True and e[0] == 'call' and (e[1] in UNIT_TESTS or any_of_unit_test(e)) for k, e, v, S in conds)
+        if not ok:
+            # a short-circuit disjunction (`a || it.any(..) || tail.any(..)`): every edge into the block is the true edge of a unit test
+            edges, seen_, stack = [], set(), [bi]
+            while stack:
+                x = stack.pop()
+                if x in seen_:
+                    continue
+                seen_.add(x)
+                for pb in b.pred[x]:
+                    tp = b.blocks[pb]['t']
+                    if 'switch' in tp and tp.get('sty') == 'bool':
+                        tr_ = [bool_truth(b, pb, lab) for lab, tgt in switch_edges(b, pb) if tgt == x]
+                        edges.append((r.operand(tp['switch']), tr_[0] if len(tr_) == 1 else None))
+                    elif 'goto' in tp or ('call' in tp and tp.get('target') == x and not b.blocks[pb]['s'] and False):
+                        stack.append(pb)
+                    else:
+                        edges.append((None, None))
+            ok = bool(edges) and all(e_ is not None and tr_ is True and e_[0] == 'call' and (e_[1] in UNIT_TESTS or any_of_unit_test(e_)) for e_, tr_ in edges)
         rep.ob('C16-D3', fn + ':Bidi@bb', ok, 'Bidi returned without a positive bidi test on a unit',
                sp_str(b.blocks[bi]['tsp']), None, c)
     for v in ('Latin1', 'LeftToRight', 'Bidi'):
